@@ -488,22 +488,28 @@ func c03Exec(c fw.Case) *fw.Result {
 			jobs = append(jobs, job{d, text, c03Chunks[r.Intn(len(c03Chunks))]})
 		}
 		var wg sync.WaitGroup
+		var locals []*fw.Result
 		start := make(chan struct{})
 		for g := 0; g < 16; g++ {
 			wg.Add(1)
+			local := fw.NewResult() // c03Check inspects the violations of its result: one per goroutine
+			locals = append(locals, local)
 			go func(g int) {
 				defer wg.Done()
 				<-start
 				for rep := 0; rep < 3; rep++ {
 					for i := range jobs {
 						j := jobs[(i+g*5)%len(jobs)]
-						c03Check(res, j.d, j.text, j.chunk, map[string]any{"concurrent": true, "goroutine": g})
+						c03Check(local, j.d, j.text, j.chunk, map[string]any{"concurrent": true, "goroutine": g})
 					}
 				}
 			}(g)
 		}
 		close(start)
 		wg.Wait()
+		for _, l := range locals {
+			xmlMerge(res, l)
+		}
 		res.Add("concurrent_decodes", int64(16*3*len(jobs)))
 		res.Eval("concurrent|" + c.Variant)
 		res.Sample = map[string]any{"goroutines": 16, "documents": len(jobs), "variant": c.Variant}
